@@ -4,6 +4,13 @@
 #include "rational.h"
 #include <vector>
 
+#ifdef PSTLAB_ORATIO_VERIF
+namespace oratio_verif
+{
+  struct access;
+}
+#endif
+
 namespace ratio
 {
   class solver;
@@ -13,6 +20,9 @@ namespace ratio
   {
     friend class solver;
     friend class resolver;
+#ifdef PSTLAB_ORATIO_VERIF
+    friend struct ::oratio_verif::access; // read-only access for the verification harness (exclusive)..
+#endif
 
   public:
     flaw(solver &slv, std::vector<resolver *> causes, const bool &exclusive = false);
